@@ -162,7 +162,8 @@ def hdr_ok(blob, address, length, code):
 
 @contract("spsdk.sbfile.sb31.commands:BaseCmd.export")
 def _(self: SubObj(BaseCmd, _address=U32, _length=U32, cmd_tag=OneOf(EnumCmdTag.ERASE, EnumCmdTag.LOAD, EnumCmdTag.EXECUTE, EnumCmdTag.COPY, EnumCmdTag.FILL_MEMORY, EnumCmdTag.PROGRAM_FUSES,
-                                                                                       EnumCmdTag.PROGRAM_IFR))) -> bytes:
+                                                                                       EnumCmdTag.PROGRAM_IFR, EnumCmdTag.CALL, EnumCmdTag.RESET, EnumCmdTag.LOAD_CMAC,
+                                                                                       EnumCmdTag.LOAD_HASH_LOCKING))) -> bytes:
     ensures(len(result) == 16 and hdr_ok(result, self._address, self._length, self.cmd_tag.tag), label="tag-address-length-code")
     pure()
 
@@ -192,6 +193,7 @@ def _(self: Obj(CmdFillMemory, _address=U32, _length=U32, cmd_tag=Const(EnumCmdT
 
 
 from spsdk.sbfile.sb31.commands import CmdProgFuses, CmdProgIfr  # noqa: E402
+from spsdk.sbfile.sb31.commands import CmdLoadCmac as _CmdLoadCmac, CmdLoadHashLocking as _CmdLoadHashLocking  # noqa: E402
 
 
 def LOADER(cls, tag, has_memory_block):
@@ -199,7 +201,9 @@ def LOADER(cls, tag, has_memory_block):
 
 
 def _mk_loader(rnd):
-    kind = rnd.randrange(3)
+    kind = rnd.randrange(4)
+    if kind == 3:
+        return _CmdLoadCmac(rnd.getrandbits(32), bytes(rnd.getrandbits(8) for _ in range(rnd.choice([0, 1, 16, 33]))), rnd.getrandbits(4))
     if kind == 0:
         return CmdLoad(rnd.getrandbits(32), bytes(rnd.getrandbits(8) for _ in range(rnd.choice([0, 1, 15, 16, 17, 100]))), rnd.getrandbits(4))
     if kind == 1:
@@ -208,7 +212,8 @@ def _mk_loader(rnd):
 
 
 @contract("spsdk.sbfile.sb31.commands:CmdLoadBase.export")
-def _(self: Union[LOADER(CmdLoad, EnumCmdTag.LOAD, True), LOADER(CmdProgFuses, EnumCmdTag.PROGRAM_FUSES, False), LOADER(CmdProgIfr, EnumCmdTag.PROGRAM_IFR, False)]) -> bytes:
+def _(self: Union[LOADER(CmdLoad, EnumCmdTag.LOAD, True), LOADER(CmdProgFuses, EnumCmdTag.PROGRAM_FUSES, False), LOADER(CmdProgIfr, EnumCmdTag.PROGRAM_IFR, False),
+                  LOADER(_CmdLoadCmac, EnumCmdTag.LOAD_CMAC, True), LOADER(_CmdLoadHashLocking, EnumCmdTag.LOAD_HASH_LOCKING, True)]) -> bytes:
     # the length word counts bytes, for PROGRAM_FUSES it counts 32-bit fuse words (CmdProgFuses.__init__); the payload is always the whole data
     requires(self._length == (len(self.data) // 4 if typed(self, CmdProgFuses) else len(self.data)))
     let(n=len(self.data), h=32 if self.HAS_MEMORY_ID_BLOCK else 16)
@@ -238,3 +243,64 @@ def _(self: Obj(CmdLoadKeyBlob, _address=U16, cmd_tag=Const(EnumCmdTag.LOAD_KEY_
     ensures(result[16: 16 + n] == self.data and forall(16 + n, len(result), lambda k: result[k] == 0), label="blob-as-given-then-zero-padding")
     pure()
     sample_with(lambda rnd: {"self": CmdLoadKeyBlob(rnd.getrandbits(16), bytes(rnd.getrandbits(8) for _ in range(rnd.choice([0, 48, 50]))), rnd.choice([16, 17]))})
+
+
+# ---- the remaining commands: what the loader reads, and parse inverts export ---------------------------------------------------------------------
+from spsdk.sbfile.sb31.commands import (CmdCall, CmdConfigureMemory, CmdExecute, CmdFwVersionCheck, CmdLoadCmac, CmdLoadHashLocking,  # noqa: E402
+                                        CmdReset)
+
+inline("spsdk.sbfile.sb31.commands:BaseCmd.header_parse", "spsdk.sbfile.sb31.commands:CmdExecute.__init__", "spsdk.sbfile.sb31.commands:CmdExecute.parse",
+       "spsdk.sbfile.sb31.commands:CmdCall.__init__", "spsdk.sbfile.sb31.commands:CmdCall.parse", "spsdk.sbfile.sb31.commands:CmdReset.__init__",
+       "spsdk.sbfile.sb31.commands:CmdReset.parse", "spsdk.sbfile.sb31.commands:CmdConfigureMemory.__init__", "spsdk.sbfile.sb31.commands:CmdConfigureMemory.export",
+       "spsdk.sbfile.sb31.commands:CmdConfigureMemory.parse", "spsdk.sbfile.sb31.commands:CmdFwVersionCheck.__init__", "spsdk.sbfile.sb31.commands:CmdFwVersionCheck.export",
+       "spsdk.sbfile.sb31.commands:CmdFwVersionCheck.parse", "spsdk.utils.spsdk_enum:SpsdkEnum.from_tag", "spsdk.sbfile.sb31.commands:CmdErase.__init__",
+       "spsdk.sbfile.sb31.commands:CmdErase.parse", "spsdk.sbfile.sb31.commands:CmdCopy.__init__", "spsdk.sbfile.sb31.commands:CmdCopy.parse",
+       "spsdk.sbfile.sb31.commands:CmdFillMemory.__init__", "spsdk.sbfile.sb31.commands:CmdFillMemory.parse", "spsdk.sbfile.sb31.commands:CmdLoad.__init__",
+       "spsdk.sbfile.sb31.commands:CmdLoadCmac.__init__", "spsdk.sbfile.sb31.commands:CmdLoadHashLocking.__init__", "spsdk.sbfile.sb31.commands:CmdLoadHashLocking.export",
+       "spsdk.sbfile.sb31.commands:CmdLoadBase.parse", "spsdk.sbfile.sb31.commands:CmdLoadBase._extract_data", "spsdk.sbfile.sb31.commands:CmdSectionHeader.parse")
+
+
+@lemma("execute-call-reset-are-bare-headers-and-parse-back")
+def _(address: U32):
+    let(e=CmdExecute(address).export(), c=CmdCall(address).export(), r=CmdReset().export())
+    ensures(len(e) == 16 and hdr_ok(e, address, 0, EnumCmdTag.EXECUTE.tag) and len(c) == 16 and hdr_ok(c, address, 0, EnumCmdTag.CALL.tag)
+            and len(r) == 16 and hdr_ok(r, 0, 0, EnumCmdTag.RESET.tag), label="loader-sees-jump-address-and-code")
+    ensures(CmdExecute.parse(e).address == address and CmdCall.parse(c).address == address and CmdReset.parse(r).export() == r, label="parse-inverts-export")
+
+
+@lemma("configure-memory-and-version-check-put-their-operands-in-the-header-words")
+def _(address: U32, memory_id: U32, value: U32, counter: OneOf(*list(CmdFwVersionCheck.CounterID))):
+    let(m=CmdConfigureMemory(address, memory_id).export(), v=CmdFwVersionCheck(value, counter).export())
+    ensures(len(m) == 16 and words(m, 0, 4) == (0x55AAAA55, memory_id, address, EnumCmdTag.CONFIGURE_MEMORY.tag), label="memory-id-then-configuration-address")
+    ensures(len(v) == 16 and words(v, 0, 4) == (0x55AAAA55, value, counter.tag, EnumCmdTag.FW_VERSION_CHECK.tag), label="minimal-version-then-counter-id")
+    let(mb=CmdConfigureMemory.parse(m), vb=CmdFwVersionCheck.parse(v))
+    ensures(mb.address == address and mb.memory_id == memory_id and vb.value == value and vb.counter_id == counter, label="parse-inverts-export")
+
+
+@lemma("erase-copy-fill-parse-inverts-export")
+def _(address: U32, length: U32, a: U32, b: U32, c: U32):
+    let(e=CmdErase.parse(CmdErase(address, length, a).export()), cp=CmdCopy.parse(CmdCopy(address, length, a, b, c).export()),
+        f=CmdFillMemory.parse(CmdFillMemory(address, length, a).export()))
+    ensures((e.address, e.length, e.memory_id) == (address, length, a), label="erase")
+    ensures((cp.address, cp.length, cp.destination_address, cp.memory_id_from, cp.memory_id_to) == (address, length, a, b, c), label="copy")
+    ensures((f.address, f.length, f.pattern) == (address, length, a), label="fill")
+
+
+@lemma("load-family-parse-inverts-export")
+def _(address: U32, memory_id: U32, data: Bytes(lo=0, hi=4096)):
+    let(l=CmdLoad.parse(CmdLoad(address, data, memory_id).export()), m=CmdLoadCmac.parse(CmdLoadCmac(address, data, memory_id).export()))
+    ensures((l.address, l.memory_id, l.data, l.length, l.cmd_tag) == (address, memory_id, data, len(data), EnumCmdTag.LOAD), label="load")
+    ensures((m.address, m.memory_id, m.data, m.length, m.cmd_tag) == (address, memory_id, data, len(data), EnumCmdTag.LOAD_CMAC), label="load-cmac")
+    let(hx=CmdLoadHashLocking(address, data, memory_id).export())
+    ensures(len(hx) == 32 + (len(data) + 15) // 16 * 16 + 64 and hdr_ok(hx, address, len(data), EnumCmdTag.LOAD_HASH_LOCKING.tag) and hx[32: 32 + len(data)] == data
+            and forall(32 + len(data), len(hx), lambda k: hx[k] == 0), label="hash-locking-load-leaves-64-zero-bytes-for-the-hash")
+    let(h=CmdLoadHashLocking.parse(hx))
+    ensures((h.address, h.memory_id, h.data, h.length) == (address, memory_id, data, len(data)), label="load-hash-locking")
+
+
+@lemma("section-header-parse-inverts-export")
+def _(length: U32, uid: U32, typ: U32):
+    let(raw=CmdSectionHeader(length, uid, typ).export())
+    ensures(len(raw) == 16 and words(raw, 0, 4) == (uid, typ, length, 0), label="uid-type-length")
+    let(back=CmdSectionHeader.parse(raw))
+    ensures((back.section_uid, back.section_type, back.length) == (uid, typ, length), label="parse-inverts-export")
